@@ -41,7 +41,31 @@ fn check_spans(src: &str) -> Result<(), String> {
 #[derive(Clone, Debug)]
 struct Decl { word: &'static str, names: Vec<&'static str>, sep: &'static str, exclusive: bool }
 #[derive(Clone, Debug)]
-struct RuleD { restrict: Vec<usize>, ch: char, name: Option<(String, char)>, target: Option<(usize, u8)>, sep: &'static str }
+enum Pat { Lit(String), Star(char), Plus(Vec<char>), Opt(char, char) }
+impl Pat {
+    fn render(&self) -> String {
+        match self {
+            Pat::Lit(s) => s.clone(),
+            Pat::Star(c) => format!("{}*", c),
+            Pat::Plus(cs) => format!("[{}]+", cs.iter().collect::<String>()),
+            Pat::Opt(x, y) => format!("{}?{}", x, y),
+        }
+    }
+    /// length of the match at the start of `s`, if any (all forms are greedy: leftmost-first = longest)
+    fn mlen(&self, s: &str) -> Option<usize> {
+        match self {
+            Pat::Lit(l) => if s.starts_with(l.as_str()) { Some(l.len()) } else { None },
+            Pat::Star(c) => Some(s.chars().take_while(|x| x == c).count()),
+            Pat::Plus(cs) => { let n = s.chars().take_while(|x| cs.contains(x)).count(); if n > 0 { Some(n) } else { None } }
+            Pat::Opt(x, y) => {
+                let mut it = s.chars();
+                match it.next() { Some(a) if a == *x => if it.next() == Some(*y) { Some(2) } else { None }, Some(a) if a == *y => Some(1), _ => None }
+            }
+        }
+    }
+}
+#[derive(Clone, Debug)]
+struct RuleD { restrict: Vec<usize>, pat: Pat, name: Option<(String, char)>, target: Option<(usize, u8)>, sep: &'static str }
 #[derive(Clone, Debug)]
 struct Desc { header: &'static str, decls: Vec<Decl>, rules: Vec<RuleD> }
 
@@ -81,12 +105,19 @@ fn gen_desc(rng: &mut Lcg) -> Desc {
     let nst = states_of(&d).len();
     let nr = 2 + rng.next(4);
     for k in 0..nr {
-        let ch = (b'a' + k as u8) as char;
+        let abc = ['a', 'b', 'c'];
+        let pat = match rng.next(6) {
+            0 => Pat::Star(abc[rng.next(3)]),
+            1 => { let a = abc[rng.next(3)]; let b = abc[rng.next(3)]; Pat::Plus(if a == b { vec![a] } else { vec![a, b] }) }
+            2 => { let a = abc[rng.next(3)]; let b = abc[(rng.next(2) + 1 + abc.iter().position(|c| *c == a).unwrap()) % 3]; Pat::Opt(a, b) }
+            3 => Pat::Lit(format!("{}{}", abc[rng.next(3)], abc[rng.next(3)])),
+            _ => Pat::Lit(abc[rng.next(3)].to_string()),
+        };
         let mut restrict = Vec::new();
         for _ in 0..rng.next(3) { let s = rng.next(nst); if !restrict.contains(&s) { restrict.push(s); } }
-        let name = match rng.next(4) { 0 => None, 1 => Some((ch.to_uppercase().to_string(), '"')), _ => Some((ch.to_uppercase().to_string(), '\'')) };
+        let name = match rng.next(4) { 0 => None, 1 => Some((format!("T{}", k), '"')), _ => Some((format!("T{}", k), '\'')) };
         let target = if rng.next(2) == 0 { None } else { Some((rng.next(nst), rng.next(3) as u8)) };
-        d.rules.push(RuleD { restrict, ch, name, target, sep: [" ", "\t", "  "][rng.next(3)] });
+        d.rules.push(RuleD { restrict, pat, name, target, sep: [" ", "\t", "  "][rng.next(3)] });
     }
     d
 }
@@ -106,7 +137,7 @@ fn render(d: &Desc) -> String {
             s.push_str(&r.restrict.iter().map(|&i| st[i].0).collect::<Vec<_>>().join(","));
             s.push('>');
         }
-        s.push(r.ch);
+        s.push_str(&r.pat.render());
         s.push_str(r.sep);
         if let Some((t, op)) = r.target {
             s.push('<');
@@ -125,13 +156,21 @@ fn model_lex(d: &Desc, input: &str) -> (Vec<(String, usize, usize)>, Option<usiz
     let st = states_of(d);
     let mut stack = vec![0usize];
     let mut out = Vec::new();
-    for (i, c) in input.char_indices() {
+    let mut i = 0;
+    while i < input.len() {
         let cur = *stack.last().unwrap();
-        let hit = d.rules.iter().find(|r| r.ch == c && (if r.restrict.is_empty() { !st[cur].1 } else { r.restrict.contains(&cur) }));
-        match hit {
+        // longest non-empty match among the active rules, the earliest rule on ties
+        let mut best: Option<(usize, usize)> = None;
+        for (k, r) in d.rules.iter().enumerate() {
+            let active = if r.restrict.is_empty() { !st[cur].1 } else { r.restrict.contains(&cur) };
+            if !active { continue; }
+            if let Some(l) = r.pat.mlen(&input[i..]) { if l > 0 && best.map(|b| l > b.0).unwrap_or(true) { best = Some((l, k)); } }
+        }
+        match best {
             None => return (out, Some(i)),
-            Some(r) => {
-                if let Some((n, _)) = &r.name { out.push((n.clone(), i, c.len_utf8())); }
+            Some((l, k)) => {
+                let r = &d.rules[k];
+                if let Some((n, _)) = &r.name { out.push((n.clone(), i, l)); }
                 if let Some((t, op)) = r.target {
                     match op {
                         0 => { stack.clear(); stack.push(t); }
@@ -139,6 +178,7 @@ fn model_lex(d: &Desc, input: &str) -> (Vec<(String, usize, usize)>, Option<usiz
                         _ => { stack.pop(); if stack.is_empty() { stack.push(0); } }
                     }
                 }
+                i += l;
             }
         }
     }
@@ -156,7 +196,7 @@ fn check_desc(d: &Desc, src: &str, inputs: &[String]) -> Result<(), String> {
     if rules.len() != d.rules.len() { return Err(format!("{} rules, written {}", rules.len(), d.rules.len())); }
     for (k, (r, rd)) in rules.iter().zip(d.rules.iter()).enumerate() {
         if r.name() != rd.name.as_ref().map(|x| x.0.as_str()) { return Err(format!("rule {}: name {:?}, written {:?}", k, r.name(), rd.name)); }
-        if r.re_str() != rd.ch.to_string() { return Err(format!("rule {}: regex {:?}, written {:?}", k, r.re_str(), rd.ch)); }
+        if r.re_str() != rd.pat.render() { return Err(format!("rule {}: regex {:?}, written {:?}", k, r.re_str(), rd.pat.render())); }
         if r.start_states() != rd.restrict.as_slice() { return Err(format!("rule {}: restricted to states {:?}, written {:?}", k, r.start_states(), rd.restrict)); }
         let exp_t = rd.target.map(|(t, op)| (t, match op { 0 => StartStateOperation::ReplaceStack, 1 => StartStateOperation::Push, _ => StartStateOperation::Pop }));
         if r.target_state() != exp_t { return Err(format!("rule {}: target {:?}, written {:?}", k, r.target_state(), exp_t)); }
@@ -181,7 +221,8 @@ fn check_desc(d: &Desc, src: &str, inputs: &[String]) -> Result<(), String> {
 
 fn inputs_for(d: &Desc, rng: &mut Lcg) -> Vec<String> {
     let n = d.rules.len();
-    (0..8).map(|_| { let l = 1 + rng.next(6); (0..l).map(|_| (b'a' + rng.next(n) as u8) as char).collect() }).collect()
+    let _ = n;
+    (0..8).map(|_| { let l = 1 + rng.next(6); (0..l).map(|_| (b'a' + rng.next(3) as u8) as char).collect() }).collect()
 }
 
 pub fn run(src: &str) -> Outcome {
@@ -196,14 +237,27 @@ pub fn run(src: &str) -> Outcome {
 /// re-run of a generated case: the description is regenerated from its seed
 pub fn run_gen(seed: u64) -> Outcome {
     let expected = "the parsed definition and its lexing behaviour are those of the written specification".to_string();
-    let mut rng = Lcg(seed);
-    let d = gen_desc(&mut rng);
-    let src = render(&d);
-    let inputs = inputs_for(&d, &mut rng);
-    match catch_unwind(AssertUnwindSafe(|| check_desc(&d, &src, &inputs))) {
-        Err(_) => Outcome { fails: true, observed: format!("panic on {:?}", src), expected },
+    let (tx, rx) = std::sync::mpsc::channel();
+    std::thread::spawn(move || {
+        let mut rng = Lcg(seed);
+        let d = gen_desc(&mut rng);
+        let src = render(&d);
+        let inputs = inputs_for(&d, &mut rng);
+        let r = match catch_unwind(AssertUnwindSafe(|| check_desc(&d, &src, &inputs))) {
+            Err(_) => Err(format!("panic on {:?}", src)),
+            Ok(Ok(())) => Ok(()),
+            Ok(Err(e)) => Err(format!("{} [source {:?}]", e, src)),
+        };
+        let _ = tx.send(r);
+    });
+    match rx.recv_timeout(std::time::Duration::from_millis(3000)) {
         Ok(Ok(())) => Outcome { fails: false, observed: "ok".into(), expected },
-        Ok(Err(e)) => Outcome { fails: true, observed: format!("{} [source {:?}]", e, src), expected },
+        Ok(Err(e)) => Outcome { fails: true, observed: e, expected },
+        Err(_) => {
+            let mut rng = Lcg(seed);
+            let d = gen_desc(&mut rng);
+            Outcome { fails: true, observed: format!("no result after 3 s (hang) on a specification / input pair [source {:?}]", render(&d)), expected }
+        }
     }
 }
 
